@@ -150,22 +150,41 @@ def correspondence(ck, binpath, n, loops):
         kept.append(c)
     name = "corr41" if loops else "corr15"
     req = ["EV.C15.Model", "EV.C15.Print", "EV.C15.Corr"]
-    prelude = "Require Import Coq.Lists.List Coq.NArith.NArith Coq.Strings.String.\nImport ListNotations.\nLocal Open Scope string_scope.\n"
-    failing = ck.coq_failing(name, terms, req, per_shard=30, prelude=prelude)
-    if failing:
-        for i in failing[:5]:
-            c = kept[i]
-            ck.tie_broken("model/implementation disagreement on the inferred types (or on the semantics copy) of a program of the fragment",
-                          json.dumps({"text": c["text"], "obs": [o["c"] for o in c["obs"]], "reach": c["reach"], "p": c["p"]})[:4000])
-    # the stricter comparison (same LuaType, not only the same value set) is informative only
-    if failing is not None and not failing:
-        exact = ck.coq_failing(name + "x", terms, req, check_fn="check_case_exact", per_shard=30, prelude=prelude)
-        ck.cov["traces_validated_against_impl"] -= len(terms)   # counted once
-        if exact:
-            ck.notes.append("%d of %d correspondence cases agree on the value sets but not on the exact LuaType representation" % (len(exact), len(terms)))
-            ck.cov["distribution"][name + "_exact_type_mismatches"] = len(exact)
-        elif exact is not None:
-            ck.cov["distribution"][name + "_exact_type_mismatches"] = 0
+    # one coqc run per shard evaluates the tie (check_case: same value sets, same semantics, same text, same shape classes)
+    # and the stricter, informative comparison (check_case_exact: the very same LuaType)
+    n = len(terms)
+    nshard = min(NCPU, max(1, n // 30))
+    idxs = [list(range(i, n, nshard)) for i in range(nshard)]
+    bodies = []
+    for ids in idxs:
+        b = ("Require Import Coq.Lists.List Coq.NArith.NArith Coq.Strings.String.\nImport ListNotations.\n"
+             "Local Open Scope N_scope.\nLocal Open Scope string_scope.\n")
+        b += "Definition cases__ : list case := [\n%s].\n" % ";\n".join(terms[i] for i in ids)
+        b += ("Definition failing__ (f : case -> bool) := (fix go (cs : list case) (i : N) : list N := match cs with [] => [] | c :: r => "
+              "if f c then go r (i + 1) else i :: go r (i + 1) end) cases__ 0.\n")
+        b += "Eval vm_compute in (failing__ check_case, failing__ check_case_exact).\n"
+        bodies.append(b)
+    results = ck.coq_eval_shards(name, bodies, req, 1800) if n else []
+    failing, exact, bad = [], [], False
+    for (rc, out), ids in zip(results, idxs):
+        m = re.search(r"=\s*\(\s*\[(.*?)\]\s*,\s*\[(.*?)\]\s*\)\s*:", out, re.S) if rc == 0 else None
+        if not m:
+            ck.tie_broken("correspondence evaluation %s did not compile/finish (model or checker broken)" % name, out[-3000:])
+            bad = True
+            continue
+        failing += [ids[int(x)] for x in re.findall(r"\d+", m.group(1))]
+        exact += [ids[int(x)] for x in re.findall(r"\d+", m.group(2))]
+    ck.cov["traces_validated_against_impl"] += n
+    for i in sorted(failing)[:5]:
+        c = kept[i]
+        ck.tie_broken("model/implementation disagreement on the inferred types (or on the semantics copy) of a program of the fragment",
+                      json.dumps({"text": c["text"], "obs": [o["c"] for o in c["obs"]], "reach": c["reach"], "p": c["p"]})[:4000])
+    if not bad:
+        only_exact = [i for i in exact if i not in set(failing)]
+        ck.cov["distribution"][name + "_exact_type_mismatches"] = len(only_exact)
+        if only_exact:
+            ck.notes.append("%d of %d correspondence cases agree on the value sets but not on the exact LuaType representation, e.g. %s" % (
+                len(only_exact), n, json.dumps(kept[only_exact[0]]["text"])[:600]))
     nprobes = 0
     for c in kept:
         nprobes += len(c["obs"])
